@@ -3,4 +3,5 @@
 set -eu
 cd "$(dirname "$0")/harness"
 export CARGO_NET_OFFLINE=true
+export CARGO_TARGET_DIR="${CARGO_TARGET_DIR:-/verif/target}"
 cargo build --release --offline
